@@ -2,6 +2,7 @@
 //! verdicts are in the shard file, decided by the driver).
 use crate::{Ctx, Recorder};
 
+pub mod c01;
 pub mod c07;
 pub mod c08;
 pub mod c09;
@@ -21,6 +22,7 @@ pub fn dispatch(ctx: &Ctx) -> i32 {
     let r = match ctx.id.as_str() {
         "DOC" => doc::run(ctx, &mut rec),
         "OBS" => obs::run(ctx, &mut rec),
+        "C01" => c01::run(ctx, &mut rec),
         "C07" => c07::run(ctx, &mut rec),
         "C08" => c08::run(ctx, &mut rec),
         "C09" => c09::run(ctx, &mut rec),
